@@ -227,6 +227,17 @@ func check(c arith.Case, st *core.Stats) error {
 		return fmt.Errorf("%v: result %s flags %s: Underflow must be raised exactly when Subnormal and Inexact are", c, core.Show(o.D), core.FlagStr(o.Res))
 	}
 	if c.Note == "composite" {
+		if c.Op == "cbrt" && c.X.Form == 0 && !c.X.IsZero() && o.Err == nil && c.Ctx.P > 0 && !arith.NearLimit(c, nil) {
+			// a perfect cube whose root fits: the exact result is known, so are its conditions
+			if ex, exact := ref.CbrtExact(c.X, int64(c.Ctx.P)); exact {
+				if want := ref.Round(ex, c.Ctx); !want.Inexact && want.Form == apd.Finite {
+					st.NonTrivial("composite:cbrt:exact-root:" + core.FlagStr(want.Flags()&valueMask))
+					if got := o.Res & valueMask; got != want.Flags()&valueMask {
+						return fmt.Errorf("%v: result %s flags %s, expected exactly %s for the exact root %v", c, core.Show(o.D), core.FlagStr(o.Res), core.FlagStr(want.Flags()&valueMask), want)
+					}
+				}
+			}
+		}
 		if o.Err == nil && o.Res&(apd.Subnormal|apd.Overflow) != 0 {
 			st.NonTrivial("composite:" + c.Op + ":" + core.FlagStr(o.Res&(apd.Subnormal|apd.Underflow|apd.Overflow|apd.Inexact)))
 		}
